@@ -72,8 +72,12 @@ def finish_part(spec):
         objs.insert(0, {"k": "system", "s": 0, "e": last, "number": 1})
         objs.insert(0, {"k": "page", "s": 0, "e": last, "number": 1})
     fam = {"dyn": "loud", "tempodir": "tempo"}
-    for f in ("loud", "tempo"):
-        ds = sorted([o for o in objs if fam.get(o["k"]) == f], key=lambda o: o["s"])
+
+    def family(o):
+        # "cdir" = a constant direction of an explicit family (loud / tempo / artic), see build_part
+        return o["fam"] if o["k"] == "cdir" else fam.get(o["k"])
+    for f in ("loud", "tempo", "artic"):
+        ds = sorted([o for o in objs if family(o) == f], key=lambda o: o["s"])
         for o in ds:
             later = [x["s"] for x in ds if x["s"] > o["s"]]
             o["e"] = min(later) if later else last
@@ -192,15 +196,23 @@ _DYNWORDS = {"crescendo": "IncreasingLoudnessDirection", "diminuendo": "Decreasi
              "ritardando": "DecreasingTempoDirection", "accelerando": "IncreasingTempoDirection"}
 
 
+_CDIR = {"loud": "ConstantLoudnessDirection", "tempo": "ConstantTempoDirection", "artic": "ConstantArticulationDirection"}
+
+
 def build_part(spec):
     import partitura.score as S
 
-    extra = [o for o in spec["objs"] if o["k"] == "dynwords" or (o["k"] == "fermata" and o.get("bar"))]
+    extra = [o for o in spec["objs"] if o["k"] in ("dynwords", "cdir") or (o["k"] == "fermata" and o.get("bar"))]
     base = dict(spec, objs=[o for o in spec["objs"] if not any(o is x for x in extra)])
     part = ir.build_part(base)
     for o in extra:
         if o["k"] == "dynwords":
             d = getattr(S, _DYNWORDS[o["text"]])(o["text"], staff=o.get("staff"))
+            part.add(d, o["s"], o.get("e"))
+        elif o["k"] == "cdir":
+            # constant direction of one of the three families that score.set_end_times closes; these are
+            # added in the order of the spec so that a case fixes the order inside a time point
+            d = getattr(S, _CDIR[o["fam"]])(o["text"], staff=o.get("staff"))
             part.add(d, o["s"], o.get("e"))
         else:
             part.add(S.Fermata(o["ref"]), o["s"])
